@@ -41,3 +41,11 @@ run "Unquote panics on a token shorter" C06
 run "slice or pointer type that is its own element type" C19
 run "Union() with a nil member" C19
 run "productions the root does not reach" C08
+# Repairs whose reverse patch no longer applies on its own, because a later repair touches the same lines, are
+# reverse-applied together with those later repairs (newest first).
+chain() { ids=$1; shift; cs=""; IFS='|' read -ra subs <<< "$ids"; for sub in "${subs[@]}"; do cs="$cs+$(lookup "$sub")"; done; cs=${cs#+}; echo "== revert chain $cs: $*"; tools/mutcheck.sh -R:$cs "$@" 2>&1 | grep -E "exit=|cannot" | cut -c1-200; }
+chain "Unquote panics on a token shorter|Unquote mangles" C18
+chain "negated negation as|EBNF printing panics on anonymous struct" C19
+chain "negated negation as|EBNF printing panics on anonymous struct|modifier applied to a modified group" C14
+chain "fold partners of a different byte length|lexer generator mistakes an escaped backslash" C05
+chain "fold partners of a different byte length|lexer generator mistakes an escaped backslash|against the whole input|loops forever when a repetition body|empty-match and no-match operators are inverted|rejects the last character of the input|never matches multi-byte literals" C05
